@@ -249,9 +249,42 @@ pub fn gen(ctx: &mut Ctx, k: usize) -> Option<FaultCase> {
         }
         noise_tag = format!("noise={}@{}", NOISE[ni], if first { "first" } else { "last" });
     }
+    // parameters on the host's own first trait instruction: the rules must hold whatever parameters the trait
+    // instructions carry (seed C15-03: `..update` on an Into instruction switched the child_parents rule off)
+    let params = ctx.choose(4);
+    let params_tag = format!("params={}", ["none", "into-update", "vars", "attribute"][params]);
+    match params {
+        1 => {
+            let i0 = it.attrs.iter().position(|a| matches!(a.name.as_str(), "map" | "into") && !a.body.contains('|'));
+            match i0 {
+                Some(i) if !it.is_enum() => {
+                    let body = it.attrs[i].body.clone();
+                    if it.attrs[i].name == "map" {
+                        it.attrs[i] = Instr::new("from", None, &body);
+                        it.attrs.insert(i + 1, Instr::new("into", None, &format!("{}| ..Default::default()", body)));
+                    } else {
+                        it.attrs[i] = Instr::new("into", None, &format!("{}| ..Default::default()", body));
+                    }
+                }
+                _ => return ctx.reject(),
+            }
+        }
+        2 | 3 => {
+            let p = if params == 2 { "vars(zz: { 1 })" } else { "attribute(inline)" };
+            let a = &mut it.attrs[0];
+            if !crate::model::appl(&a.name).is_some() {
+                return ctx.reject();
+            }
+            a.body = match a.body.split_once("| ") {
+                Some((x, rest)) => format!("{}| {}, {}", x, p, rest),
+                None => format!("{}| {}", a.body, p),
+            };
+        }
+        _ => {}
+    }
     let base_with_noise = it.clone();
     let mut faults = vec![];
-    let mut tags = vec![format!("host={}", host_name), format!("faults={}", k), noise_tag];
+    let mut tags = vec![format!("host={}", host_name), format!("faults={}", k), noise_tag, params_tag];
     let mut last = 0;
     for _ in 0..k {
         // faults are chosen in non-decreasing catalogue order (a pair is a set), positions independently
